@@ -36,7 +36,9 @@ ASSUMPTIONS = [
     "float results are compared with the exact (Rat) model within 1e-10 of the natural scale "
     "(max |data|, resp. max|data| + |amount|/min cell volume); on dyadic grids with dyadic data exactly",
     "at a rounding tie (cell coordinate within 1e-9 of an integer) the index pair of get_axis_data may "
-    "differ from the exact one; there the index->weight distribution is compared instead of the raw tuple",
+    "differ from the exact one; there the index->weight distribution is compared instead of the raw tuple "
+    "(with numpy's negative-index wrap-around: for a cell coordinate in (-2^-53, 0) float divmod returns (-1, 1.0), "
+    "i.e. index -1 with weight 0, or - single cell - index -1 = that cell)",
     "boundary-condition ghost cells are produced by the real set_ghost_cells (property C02); the model "
     "receives the resulting full array",
     "theorems are stated for the clipping constant eps <= 0 (clipping inert, exact arithmetic); the effect of "
@@ -206,7 +208,7 @@ def axis_x(rng, kind, n, periodic, dyadic):
     if kind == "tie":
         if dyadic:
             return float(rng.randrange(n)), "centre"
-        return rng.randrange(n) + rng.choice([-1, 1]) * rng.choice([1e-15, 3e-14, 1e-12]), kind
+        return rng.randrange(n) + rng.choice([-1, 1]) * rng.choice([1e-15, 3e-14, 1e-12, 1e-9, 1e-7, 1e-6, 1e-4]), kind
     if kind == "random":
         return quant(rng.uniform(-0.5 + 1e-6, n - 0.5 - 1e-6), -0.375, n - 0.625), kind
     if kind in ("outside_lo", "outside_hi"):
@@ -563,15 +565,18 @@ def fr(s):
     return Fraction(s)
 
 
-def distribution(t, tol=1e-9):
+def distribution(t, n_arr, tol=1e-9):
+    """index -> weight with numpy's negative-index wrap-around applied, tiny weights dropped"""
     d = {}
     for i, w in ((t[0], t[2]), (t[1], t[3])):
+        if -n_arr <= i < 0:
+            i += n_arr
         d[i] = d.get(i, 0.0) + float(w)
     return {i: w for i, w in d.items() if abs(w) > tol}
 
 
-def same_axis(model, real, exact):
-    """model: None | [li, hi, 'wl', 'wh'];  real: None | (li, hi, wl, wh)"""
+def same_axis(model, real, exact, n_arr):
+    """model: None | [li, hi, 'wl', 'wh'];  real: None | (li, hi, wl, wh); n_arr = length of the indexed array"""
     if model is None or real is None:
         return model is None and real is None
     m = (model[0], model[1], fr(model[2]), fr(model[3]))
@@ -579,7 +584,7 @@ def same_axis(model, real, exact):
         return m[0] == real[0] and m[1] == real[1] and m[2] == Fraction(real[2]) and m[3] == Fraction(real[3])
     if m[0] == real[0] and m[1] == real[1] and abs(float(m[2]) - real[2]) < 1e-11 and abs(float(m[3]) - real[3]) < 1e-11:
         return True
-    dm, dr = distribution(m), distribution(real)
+    dm, dr = distribution(m, n_arr), distribution(real, n_arr)
     return dm.keys() == dr.keys() and all(abs(dm[k] - dr[k]) < 1e-9 for k in dm)
 
 
@@ -772,7 +777,10 @@ def evaluate(ctx, ev, spec, axes, meta, sides, res):
                     br = "oob" if rv is None else ("periodic" if axes[a][1] else
                                                   ("ghost" if ghost else ("strip" if rv[0] == rv[1] else "bulk")))
                     ctx.hist("axis_branch", br)
-                    if not same_axis(mv, rv, exact and not cc):
+                    if rv is not None and min(rv[0], rv[1]) < 0:
+                        ctx.hist("observation", "get_axis_data returned index -1 at a rounding tie (cell coordinate "
+                                 "-1e-17: divmod gives (-1, 1.0)); weight 0 or wrap-around onto the same cell")
+                    if not same_axis(mv, rv, exact and not cc, axes[a][0] + (2 if ghost else 0)):
                         ctx.disagree("axis", small_case(spec, "axis", axis=a, ghost=ghost, cc=cc, coord=coords[k]),
                                      mv, rv, "get_axis_data differs from axisData")
             ev.ask("c16.axis", req_axis(axes, a, ghost, cc, coords), cb)
